@@ -26,7 +26,7 @@ use std::collections::HashMap;
 pub const PROP: PropDef = PropDef {
     id: "C17",
     parts,
-    rule: "(handler) app sets of 1-3 apps in every order x service URL {/, /p, /p/q, /?x=1, /p?x=1&y=2} x key configuration {no CUP, client's latest = server's latest, = a server historical key, unknown to the server} x server historical keys 0-2 x per-app configured response (5 kinds) x parameters {source, updates disabled} x cohort on/off x request kind {update check, each of 4 event kinds}; two exchanges per case for the pairwise ETag swap; (state machine) the real state machine with the real CUP handler against the in-process mock for every response kind and a forced ETag; (reconfiguration) all sequences of up to 3 reconfigurations interleaved with requests; response kinds within the handler part are deviation-bounded per app list; non-trivial = request carried a cup2key the server could sign",
+    rule: "(handler) app sets of 1-3 apps in every order x service URL {/, /p, /p/q, /?x=1, /p?x=1&y=2} x key configuration {no CUP, client's latest = server's latest, = a server historical key, unknown to the server} x server historical keys 0-2 x per-app configured response (5 kinds) x parameters {source, updates disabled} x cohort on/off x request kind {update check, each of 4 event kinds, the latter naming any non-empty subset of the apps}; two exchanges per case for the pairwise ETag swap; (state machine) the real state machine with the real CUP handler against the in-process mock for every response kind and a forced ETag, alone or next to a second app with its own decision (mixed outcomes, either order); (reconfiguration) all sequences of up to 3 reconfigurations interleaved with requests; response kinds within the handler part are deviation-bounded per app list; non-trivial = request carried a cup2key the server could sign",
     assumptions: &["requests are the ones the client library builds for exactly the server's configured apps with the parameter the server is configured to expect (the mock asserts these)", "transport is in-process: the absolute URI is rewritten to origin-form as an HTTP/1.1 client does"],
 };
 
@@ -107,6 +107,9 @@ fn run_handler(ctx: &RunCtx) -> RunOut {
     let ondemand = choose("source", 2) == 1;
     let with_cohort = choose("cohort", 2) == 1;
     let req_kind = choose("request_kind", 5); // 0 update check, 1.. event kinds
+    // event requests name any non-empty subset of the configured apps (the state machine reports
+    // only about the apps that were offered an update); choice 0 = all of them
+    let subset_mask: usize = if req_kind == 0 { (1 << n) - 1 } else { (1 << n) - 1 - choose("event_apps_subset", (1 << n) - 1) };
     let ids = ["mock-app-1", "mock-app-2", "mock-app-3"];
     let kinds: Vec<OmahaResponse> = (0..n).map(|_| KINDS[choose("response_kind", 5)]).collect();
     let keys = key_config(keycfg, n_hist);
@@ -153,7 +156,10 @@ fn run_handler(ctx: &RunCtx) -> RunOut {
         .collect();
     let build = || {
         let mut b = RequestBuilder::new(&cfg, &params);
-        for a in &apps {
+        for (pos, a) in apps.iter().enumerate() {
+            if subset_mask & (1 << pos) == 0 {
+                continue;
+            }
             b = match req_kind {
                 0 => b.add_update_check(a).add_ping(a),
                 1 => b.add_event(a, Event::success(EventType::UpdateDownloadStarted)),
@@ -165,7 +171,7 @@ fn run_handler(ctx: &RunCtx) -> RunOut {
         b.build(handler.as_ref())
     };
     let desc = format!(
-        "apps {:?} url {url} keys#{keycfg} hist {n_hist} disable {disable} ondemand {ondemand} cohort {with_cohort} request#{req_kind} kinds {kinds:?}",
+        "apps {:?} url {url} keys#{keycfg} hist {n_hist} disable {disable} ondemand {ondemand} cohort {with_cohort} request#{req_kind} named-apps-mask {subset_mask:#b} kinds {kinds:?}",
         order
     );
     let mut out = RunOut::new(format!("keys{keycfg}"), keys.signable && keycfg != 0, hash64(&desc));
@@ -201,12 +207,13 @@ fn run_handler(ctx: &RunCtx) -> RunOut {
                     return out.fail("answer configured as invalid parses", desc);
                 }
                 let got: Vec<&str> = r.apps.iter().map(|a| a.id.as_str()).collect();
-                let exp: Vec<&str> = order.iter().map(|&i| ids[i]).collect();
+                let exp: Vec<&str> = order.iter().enumerate().filter(|(pos, _)| subset_mask & (1 << pos) != 0).map(|(_, &i)| ids[i]).collect();
                 if got != exp {
                     return out.fail("answer does not list exactly the requested apps in request order", format!("{got:?} vs {exp:?}; {desc}"));
                 }
                 if req_kind == 0 {
                     for (a, &i) in r.apps.iter().zip(order.iter()) {
+                        // (update checks name every app: subset_mask is full here)
                         let uc = match &a.update_check {
                             Some(u) => u,
                             None => return out.fail("answer lacks an updatecheck for a requested app", desc),
@@ -256,6 +263,7 @@ fn run_handler(ctx: &RunCtx) -> RunOut {
 // the real state machine against the in-process mock
 
 struct MockDirector {
+    second_app: Option<OmahaResponse>,
     server: tokio::sync::Mutex<OmahaServer>,
     /// reconfigure (through the server's own endpoint) before update check number i (0-based)
     reconfig_before: Vec<Option<OmahaResponse>>,
@@ -267,7 +275,10 @@ impl Director for MockDirector {
             if let Some(Some(k)) = self.reconfig_before.get(self.seen_uc).cloned() {
                 {
                     // reconfigure through the server's own endpoint
-                    let body = json!({"app-A": {"response": format!("{k:?}"), "check_assertion": "UpdatesEnabled", "version": "1.2.3.4", "cohort_assertion": null, "codebase": "fuchsia-pkg://x/", "package_name": "pkg"}});
+                    let mut body = json!({"app-A": {"response": format!("{k:?}"), "check_assertion": "UpdatesEnabled", "version": "1.2.3.4", "cohort_assertion": null, "codebase": "fuchsia-pkg://x/", "package_name": "pkg"}});
+                    if let Some(kb) = self.second_app {
+                        body["app-B"] = json!({"response": format!("{kb:?}"), "check_assertion": "UpdatesEnabled", "version": "5.6.7.8", "cohort_assertion": null, "codebase": "fuchsia-pkg://x/", "package_name": "pkg"});
+                    }
                     let r = hyper::Request::post("/set_responses_by_appid").body(hyper::Body::from(body.to_string())).unwrap();
                     let _ = call(&self.server, r);
                 }
@@ -302,7 +313,16 @@ fn run_sm(ctx: &RunCtx) -> RunOut {
     let url = URLS[choose("url", URLS.len())];
     let reconfig = choose("reconfigure_to", 6);
     let reconfig2 = choose("reconfigure_again_to", 6);
+    // a second configured app with its own decision (mixed outcomes: event reports then name a strict subset of the apps)
+    let second_app: Option<OmahaResponse> = [None, Some(OmahaResponse::NoUpdate), Some(OmahaResponse::Update)][choose("second_app", 3)];
+    let b_first = second_app.is_some() && choose("second_app_first", 2) == 1;
     let mut s = Setup::new(Mode::Start);
+    if second_app.is_some() {
+        s.apps.push(app("app-B", [5, 6, 7, 8]));
+        if b_first {
+            s.apps.reverse();
+        }
+    }
     s.blocking = Blocking::timers_only();
     s.cup = cup;
     s.service_url = url.into();
@@ -316,7 +336,11 @@ fn run_sm(ctx: &RunCtx) -> RunOut {
         "app-A".to_string(),
         ResponseAndMetadata { response: kind, version: Some("1.2.3.4".into()), ..Default::default() },
     );
+    if let Some(k) = second_app {
+        map.insert("app-B".to_string(), ResponseAndMetadata { response: k, version: Some("5.6.7.8".into()), ..Default::default() });
+    }
     let d = MockDirector {
+        second_app,
         server: tokio::sync::Mutex::new(OmahaServer {
             responses_by_appid: map,
             private_keys: server_keys,
@@ -348,6 +372,7 @@ fn run_sm(ctx: &RunCtx) -> RunOut {
             return "validation-error";
         }
         match k {
+            OmahaResponse::NoUpdate if second_app == Some(OmahaResponse::Update) => "update",
             OmahaResponse::NoUpdate => "no-update",
             OmahaResponse::Update | OmahaResponse::UrgentUpdate | OmahaResponse::InvalidURL => "update",
             OmahaResponse::InvalidResponse => "parse-error",
@@ -377,6 +402,32 @@ fn run_sm(ctx: &RunCtx) -> RunOut {
             format!("kind {kind:?}, forced etag {forced_etag}, cup {cup}, url {url}, reconfigured to {second_kind:?} then {third_kind:?}"),
         );
     }
+    // every request the state machine made was answered by the mock with HTTP 200 (event reports included)
+    for o in &log {
+        if let Obs::Resp(i, HttpAns::Resp(spec)) = o {
+            if spec.status != 200 {
+                return out.fail(format!("mock answers HTTP {} to a request of the state machine", spec.status), format!("req#{i}"));
+            }
+        }
+    }
+    // mixed decisions: the result names both apps with the action each was configured to receive
+    if let (Some(kb), false) = (second_app, forced_etag) {
+        use omaha_client::state_machine::update_check::Action as A;
+        let kinds_a = [kind, second_kind, third_kind];
+        for (res, ka) in results.iter().zip(kinds_a.iter()) {
+            if let Ev::Result(Ok(apps)) = res {
+                let want = |k: OmahaResponse| if k == OmahaResponse::NoUpdate { A::NoUpdate } else { A::Updated };
+                let mut exp = vec![("app-A".to_string(), want(*ka)), ("app-B".to_string(), want(kb))];
+                if b_first {
+                    exp.reverse();
+                }
+                let got: Vec<(String, A)> = apps.iter().map(|a| (a.id.clone(), a.action.clone())).collect();
+                if got != exp {
+                    return out.fail("result of a check against the mock does not give each app its configured decision", format!("{got:?} vs {exp:?}"));
+                }
+            }
+        }
+    }
     // urgent update attribute visible to the embedder
     if kind == OmahaResponse::UrgentUpdate && !forced_etag {
         let seen = log.iter().any(|o| matches!(o, Obs::Ev(Ev::ServerResp(r)) if r.apps.iter().any(|a| a.update_check.as_ref().map(|u| u.extra_attributes.contains_key("_urgent_update")).unwrap_or(false))));
@@ -392,14 +443,14 @@ fn parts(tier: Tier) -> Vec<PartDef> {
         PartDef::new(
             "handler-conformance",
             Cfg::new("C17/handler-conformance").dev(tier.pick(4, 6)),
-            json!({"apps": "1..3 in every order", "urls": URLS, "key_configurations": 4, "server_historical_keys": "0..2", "response_kinds": 5, "updates_disabled": 2, "source": 2, "cohort": 2, "request_kinds": 5,
+            json!({"apps": "1..3 in every order", "urls": URLS, "key_configurations": 4, "server_historical_keys": "0..2", "response_kinds": 5, "updates_disabled": 2, "source": 2, "cohort": 2, "request_kinds": 5, "apps_named_by_event_requests": "every non-empty subset of the configured apps",
                    "exchanges_per_case": 2, "exploration": format!("all combinations within {} departures from the default case", tier.pick(4, 6))}),
             run_handler,
         ),
         PartDef::new(
             "state-machine-vs-mock",
             Cfg::new("C17/state-machine-vs-mock"),
-            json!({"response_kinds": 5, "forced_etag": 2, "cup": 2, "urls": URLS.len(), "reconfigure_between_checks": "before check 2 and before check 3: none or to each of 5 kinds (through /set_responses_by_appid)", "checks_per_run": 3, "exploration": "full product"}),
+            json!({"response_kinds": 5, "forced_etag": 2, "cup": 2, "urls": URLS.len(), "second_app": ["none", "NoUpdate", "Update"], "second_app_position": 2, "reconfigure_between_checks": "before check 2 and before check 3: none or to each of 5 kinds (through /set_responses_by_appid)", "checks_per_run": 3, "exploration": "full product"}),
             run_sm,
         ),
     ]
